@@ -288,7 +288,8 @@ func vC02Msg(r *vRand, seq uint64, src uint64) cciptypes.Message {
 func vC02GenAnswer(r *vRand, k, s, e uint64, force string) vC02Answer {
 	cls := vPick(r, []string{"complete", "complete", "honest-db", "honest-db", "complete-unordered", "prefix", "suffix", "gap",
 		"duplicate-extra", "duplicate-replace", "shifted-up", "shifted-down", "extra-above", "extra-below",
-		"wrong-chain-one", "wrong-chain-all", "empty", "nil", "error", "hasher-error", "one-short-window"})
+		"wrong-chain-one", "wrong-chain-all", "empty", "nil", "error", "hasher-error", "one-short-window",
+		"shifted-unordered", "shifted-unordered", "shifted-unordered", "one-out-middle", "one-out-middle", "inner-duplicate", "inner-foreign"})
 	if force != "" {
 		cls = force
 	}
@@ -424,6 +425,49 @@ func vC02GenAnswer(r *vRand, k, s, e uint64, force string) vC02Answer {
 	case "hasher-error":
 		a.msgs = mk(seqs)
 		a.msgs[r.Intn(n)].Header.MessageID[0] = 0xEE
+	case "shifted-unordered":
+		// a window of the right size moved by 1 or 2, listed so that the FIRST and the LAST message lie in the interval and
+		// the out-of-range ones sit in between (4,6,5 or 3,2,4 for [3->5]): right count, both ends in range, consecutive
+		// once sorted, and yet a sequence number of the interval was not read
+		a.msgs = mk(vC02ShiftedUnordered(r, seqs))
+	case "one-out-middle": // right count, ends in range, exactly one out-of-range number in a middle position
+		qs := append([]uint64{}, seqs...)
+		if n >= 3 {
+			i := 1 + r.Intn(n-2)
+			switch {
+			case r.Bool() && seqs[n-1] < vC02Max:
+				qs[i] = seqs[n-1] + 1 + uint64(r.Intn(2))
+			case seqs[0] > 0:
+				qs[i] = seqs[0] - 1
+			default:
+				qs[i] = seqs[n-1] + 1
+			}
+			if r.Bool() { // ... and the rest not in sequence order either
+				qs[0], qs[n-1] = qs[n-1], qs[0]
+			}
+		}
+		a.msgs = mk(qs)
+	case "inner-duplicate": // right count, ends in range, an inner message repeats another number (one number missing)
+		qs := append([]uint64{}, seqs...)
+		if n >= 3 {
+			i := 1 + r.Intn(n-2)
+			j := r.Intn(n)
+			if j == i {
+				j = 0
+			}
+			qs[i] = seqs[j]
+		}
+		a.msgs = mk(qs)
+	case "inner-foreign": // complete by numbers, ends fine, an inner message names another source chain
+		a.msgs = mk(seqs)
+		if n >= 3 {
+			a.msgs[1+r.Intn(n-2)].Header.SourceChainSelector = cciptypes.ChainSelector(k ^ 0x20)
+		} else {
+			a.msgs[0].Header.SourceChainSelector = cciptypes.ChainSelector(k ^ 0x20)
+		}
+		if r.Bool() {
+			a.msgs[0], a.msgs[n-1] = a.msgs[n-1], a.msgs[0]
+		}
 	case "one-short-window": // consecutive, in range, one message short (first or last missing)
 		if n >= 2 {
 			if r.Bool() {
@@ -436,6 +480,48 @@ func vC02GenAnswer(r *vRand, k, s, e uint64, force string) vC02Answer {
 		}
 	}
 	return a
+}
+
+// the interval seqs (consecutive, len >= 3) moved by +-1 or +-2 and permuted: in-range numbers at both ends, the
+// out-of-range ones in the middle; intervals too short or at the uint64 bounds fall back to what is possible
+func vC02ShiftedUnordered(r *vRand, seqs []uint64) []uint64 {
+	n := len(seqs)
+	if n < 3 {
+		return append([]uint64{}, seqs...)
+	}
+	d := 1 + r.Intn(2)
+	if n-d < 2 {
+		d = 1
+	}
+	up := r.Bool()
+	if up && seqs[n-1] > vC02Max-uint64(d) {
+		up = false
+	}
+	if !up && seqs[0] < uint64(d) {
+		up = true
+		if seqs[n-1] > vC02Max-uint64(d) {
+			return append([]uint64{}, seqs...)
+		}
+	}
+	var in, out []uint64
+	for _, q := range seqs {
+		x := q + uint64(d)
+		if !up {
+			x = q - uint64(d)
+		}
+		if x >= seqs[0] && x <= seqs[n-1] {
+			in = append(in, x)
+		} else {
+			out = append(out, x)
+		}
+	}
+	if r.Bool() { // in-range part descending as well
+		for i, j := 0, len(in)-1; i < j; i, j = i+1, j-1 {
+			in[i], in[j] = in[j], in[i]
+		}
+	}
+	res := append([]uint64{in[0]}, out...)
+	return append(res, in[1:]...)
 }
 
 func TestVerif_C02_roots(t *testing.T) {
